@@ -533,6 +533,11 @@ struct PixCase {
     fg: u32,
     bg: u32,
     lattice: bool,
+    /// overdraw: a first layer in this colour is drawn on a superset of the final pixels, then the
+    /// final colour on top (last colour wins)
+    mid: Option<u32>,
+    /// after the layers, the part of the first layer that is not final is drawn back to `bg`
+    erase: bool,
 }
 
 /// clause 6: end-to-end pixel placement through the panel's own Display alias
@@ -545,17 +550,43 @@ fn check_pixels(c: &PixCase, variant: &str, rep: &mut Report) {
     d.fill(c.bg);
     let (lw, lh) = d.size();
     let mut drawn: Vec<(u32, u32)> = Vec::new();
+    // layer of every logical pixel: 0 background, 1 first (overdrawn) layer, 2 final colour
+    let mut layer: Vec<u8> = vec![0; (lw * lh) as usize];
+    let pick = |x: u32, y: u32| -> bool {
+        let on_border = x == 0 || y == 0 || x == lw - 1 || y == lh - 1;
+        if c.lattice {
+            (on_border && (mix64(((x as u64) << 20) ^ y as u64) % 3 == c.group as u64 % 3)) || ((x % 7 == c.group % 7) && (y % 7 == (c.group / 7) % 7))
+        } else {
+            mix64(((x as u64) << 24) ^ ((y as u64) << 4) ^ 0x77) % c.ngroups as u64 == c.group as u64
+        }
+    };
+    let extra = |x: u32, y: u32| -> bool { (x * 3 + y * 5 + c.group) % 4 == 0 };
+    if let Some(m) = c.mid {
+        for y in 0..lh {
+            for x in 0..lw {
+                if pick(x, y) || extra(x, y) {
+                    d.set_pixel(x as i32, y as i32, m);
+                    layer[(y * lw + x) as usize] = 1;
+                }
+            }
+        }
+    }
     for y in 0..lh {
         for x in 0..lw {
-            let on_border = x == 0 || y == 0 || x == lw - 1 || y == lh - 1;
-            let pick = if c.lattice {
-                (on_border && (mix64(((x as u64) << 20) ^ y as u64) % 3 == c.group as u64 % 3)) || ((x % 7 == c.group % 7) && (y % 7 == (c.group / 7) % 7))
-            } else {
-                mix64(((x as u64) << 24) ^ ((y as u64) << 4) ^ 0x77) % c.ngroups as u64 == c.group as u64
-            };
-            if pick {
+            if pick(x, y) {
                 d.set_pixel(x as i32, y as i32, c.fg);
+                layer[(y * lw + x) as usize] = 2;
                 drawn.push((x, y));
+            }
+        }
+    }
+    if c.erase {
+        for y in 0..lh {
+            for x in 0..lw {
+                if layer[(y * lw + x) as usize] == 1 {
+                    d.set_pixel(x as i32, y as i32, c.bg);
+                    layer[(y * lw + x) as usize] = 0;
+                }
             }
         }
     }
@@ -576,6 +607,8 @@ fn check_pixels(c: &PixCase, variant: &str, rep: &mut Report) {
         .set("group", c.group)
         .set("of", c.ngroups)
         .set("lattice", c.lattice)
+        .set("overdrawn_first_layer", c.mid.map(|m| m as i64))
+        .set("first_layer_erased", c.erase)
         .set("pixels_drawn", drawn.len());
     if !o.is_ok() {
         rep.fail(Failure { panel: spec.name.into(), entry: "update_frame".into(), class: "panic".into(), tags: vec!["pixel-path".into()], detail: o.short(), case });
@@ -584,19 +617,30 @@ fn check_pixels(c: &PixCase, variant: &str, rep: &mut Report) {
     let b = rig.board.borrow();
     let pl = &b.chip().planes[e.plane];
     // expected: every physical pixel holds bg's code except the rotated images of the drawn points
-    let mut is_fg = vec![false; (spec.w * spec.h) as usize];
-    for (x, y) in &drawn {
-        let (px, py) = rot(spec, c.r, *x, *y);
-        is_fg[(py * spec.w + px) as usize] = true;
+    let mut is_fg = vec![0u8; (spec.w * spec.h) as usize];
+    for y in 0..lh {
+        for x in 0..lw {
+            let l = layer[(y * lw + x) as usize];
+            if l != 0 {
+                let (px, py) = rot(spec, c.r, x, y);
+                is_fg[(py * spec.w + px) as usize] = l;
+            }
+        }
     }
     let fgc = pixel_code(spec, e.enc, c.fg);
     let bgc = pixel_code(spec, e.enc, c.bg);
+    let midc = pixel_code(spec, e.enc, c.mid.unwrap_or(c.bg));
+    let over_tag: Vec<String> = if c.mid.is_some() { vec!["overdraw".into()] } else { vec![] };
     let mut bad = 0u32;
     let mut first: Option<String> = None;
     for py in 0..spec.h {
         for px in 0..spec.w {
             let got = plane_pixel(spec, pl, e.enc, px, py);
-            let want = if is_fg[(py * spec.w + px) as usize] { fgc } else { bgc };
+            let want = match is_fg[(py * spec.w + px) as usize] {
+                2 => fgc,
+                1 => midc,
+                _ => bgc,
+            };
             if got != want {
                 bad += 1;
                 if first.is_none() {
@@ -608,15 +652,18 @@ fn check_pixels(c: &PixCase, variant: &str, rep: &mut Report) {
     rep.count("pixels_drawn", drawn.len() as u64);
     rep.count("pixels_verified", (spec.w * spec.h) as u64);
     if fgc != bgc && !drawn.is_empty() {
-        rep.nontrivial(hash_str(&format!("pix|{}|{}|{}|{}|{}|{}", spec.name, c.r, c.group, c.fg, c.bg, c.lattice)));
+        rep.nontrivial(hash_str(&format!("pix|{}|{}|{}|{}|{}|{}|{:?}|{}", spec.name, c.r, c.group, c.fg, c.bg, c.lattice, c.mid, c.erase)));
+        if c.mid.is_some() {
+            rep.count("pixels_overdrawn", layer.iter().filter(|l| **l != 0).count() as u64);
+        }
     }
     if bad > 0 {
         rep.fail(Failure {
             panel: spec.name.into(),
             entry: "Display+update_frame".into(),
             class: "pixel-misplaced".into(),
-            tags: vec![format!("rot{}", c.r * 90)],
-            detail: format!("{} pixels wrong after drawing {} pixels; first: {}", bad, drawn.len(), first.unwrap()),
+            tags: [vec![format!("rot{}", c.r * 90)], over_tag.clone()].concat(),
+            detail: format!("{} pixels wrong after drawing {} pixels{}; first: {}", bad, drawn.len(), if c.mid.is_some() { " over an earlier layer (last colour must win)" } else { "" }, first.unwrap()),
             case: case.clone(),
         });
     } else if rep.samples.len() < 10 {
@@ -645,13 +692,17 @@ fn check_pixels(c: &PixCase, variant: &str, rep: &mut Report) {
                     base
                 }
             };
-            let (fgc2, bgc2) = (code(c.fg), code(c.bg));
+            let (fgc2, bgc2, midc2) = (code(c.fg), code(c.bg), code(c.mid.unwrap_or(c.bg)));
             let mut bad2 = 0u32;
             let mut first2: Option<String> = None;
             for py in 0..spec.h {
                 for px in 0..spec.w {
                     let got = plane_pixel(spec, plc, Enc::Id, px, py);
-                    let want = if is_fg[(py * spec.w + px) as usize] { fgc2 } else { bgc2 };
+                    let want = match is_fg[(py * spec.w + px) as usize] {
+                        2 => fgc2,
+                        1 => midc2,
+                        _ => bgc2,
+                    };
                     if got != want {
                         bad2 += 1;
                         if first2.is_none() {
@@ -666,8 +717,8 @@ fn check_pixels(c: &PixCase, variant: &str, rep: &mut Report) {
                     panel: spec.name.into(),
                     entry: format!("Display+{}", fe2.k.name()),
                     class: "pixel-misplaced".into(),
-                    tags: vec![format!("rot{}", c.r * 90), "chromatic-plane".into()],
-                    detail: format!("{} pixels wrong in the chromatic plane after drawing {} pixels; first: {}", bad2, drawn.len(), first2.unwrap()),
+                    tags: [vec![format!("rot{}", c.r * 90), "chromatic-plane".into()], over_tag.clone()].concat(),
+                    detail: format!("{} pixels wrong in the chromatic plane after drawing {} pixels{}; first: {}", bad2, drawn.len(), if c.mid.is_some() { " over an earlier layer (last colour must win)" } else { "" }, first2.unwrap()),
                     case,
                 });
             }
@@ -735,11 +786,33 @@ pub fn run(ctx: &Ctx) -> Report {
                 if ctx.tier_thorough || small {
                     let ng = if ctx.tier_thorough { 16 } else { 8 };
                     for g in 0..ng {
-                        pcs.push(PixCase { spec, r, group: g, ngroups: ng, fg, bg, lattice: false });
+                        pcs.push(PixCase { spec, r, group: g, ngroups: ng, fg, bg, lattice: false, mid: None, erase: false });
                     }
                 } else {
                     for g in 0..3 {
-                        pcs.push(PixCase { spec, r, group: g + 7 * (g % 2), ngroups: 0, fg, bg, lattice: true });
+                        pcs.push(PixCase { spec, r, group: g + 7 * (g % 2), ngroups: 0, fg, bg, lattice: true, mid: None, erase: false });
+                    }
+                }
+            }
+            // overdraw: final colour on top of a first layer in another colour (every ordered pair
+            // for tri-colour buffers, a rotating partner for 7-colour ones, draw-and-erase for b/w)
+            for fg in 0..ncol {
+                let mids: Vec<u32> = match ncol {
+                    2 => vec![fg],
+                    3 => (0..3).filter(|m| *m != fg).collect(),
+                    _ => vec![(fg + 3) % ncol, (fg + 1) % ncol],
+                };
+                for (mi, mid) in mids.iter().enumerate() {
+                    let bg = (0..ncol).find(|b| *b != fg && *b != *mid).unwrap_or((fg + 1) % ncol);
+                    let erase = ncol == 2 || (r + fg + mi as u32) % 2 == 0;
+                    let g = (r + fg * 3 + mi as u32) % 7;
+                    if small {
+                        pcs.push(PixCase { spec, r, group: g, ngroups: 8, fg, bg, lattice: false, mid: Some(*mid), erase });
+                    } else {
+                        pcs.push(PixCase { spec, r, group: g, ngroups: 0, fg, bg, lattice: true, mid: Some(*mid), erase });
+                    }
+                    if ctx.tier_thorough {
+                        pcs.push(PixCase { spec, r, group: g + 1, ngroups: 8, fg, bg, lattice: !small, mid: Some(*mid), erase: !erase });
                     }
                 }
             }
